@@ -780,7 +780,9 @@ pub fn file_menu(quick: bool) -> Vec<(String, Vec<u8>)> {
     for n in [0usize, 1, 5, 127, 128, 300] {
         v.push((format!("literal{}", n), text_family(4, n)));
     }
+    v.push(("literal65536".into(), text_family(4, 65536)));
     v.push(("literal70000".into(), text_family(4, 70000)));
+    v.push(("zeros131072".into(), vec![0u8; 131072]));
     v
 }
 
@@ -1424,7 +1426,7 @@ pub fn run_c13(ctx: &Ctx, st: &mut Local) {
     let s = ctx.cur;
     let mut files = file_menu(ctx.quick());
     if ctx.quick() {
-        files.retain(|(d, f)| f.len() <= 2400 || d == "literal70000" || d == "multi");
+        files.retain(|(d, f)| f.len() <= 2400 || d.starts_with("literal") || d.starts_with("zeros") || d == "multi");
     }
     let mut idx = 0u64;
     let mut total_scripts = 0u64;
